@@ -14,6 +14,13 @@ Theorem C03_source_recovery_actions : dialogue_repaired gen_fixes.
 Proof. exact gen_dialogue_repaired. Qed.
 Print Assumptions C03_source_recovery_actions.
 
+(* T1: the classifiers of senderror.go check the length of the error text before indexing into it, so a failing
+   producer with an empty or one-/two-byte error text cannot make Send panic (in the model the classifiers are
+   total; they agree with the guarded code on such texts: C20_short_error_text) *)
+Theorem C03_source_len_guards : gen_len_guards = true.
+Proof. exact gen_len_guards_present. Qed.
+Print Assumptions C03_source_len_guards.
+
 (* The commit log, for ALL scripts / capability sets / configurations / batches / renderers: exactly, in batch
    order, one commit for every message whose end-of-data the server answered with a 2yz/3yz code — envelope
    sender, all recipients, and the dot-canonical form of the COMPLETE rendering — and nothing else.
